@@ -773,7 +773,7 @@ SYMS = ['AAA', 'BBB', 'CCC', 'DDD', 'EEE', 'FFF', 'GGG', 'HHH']
 
 def gen_cfg(rng, alpha_kinds=('fixed',), universe_kinds=('static',), max_days=250, full_data=True,
             burn=True, rebalances=('daily', 'weekly', 'end_of_month', 'buy_and_hold'), n_assets=None, nan_cells=None,
-            expensive=False, signal_universes=False, long_eom=False, two_sources=0.15, plain_date_end=False):
+            expensive=False, signal_universes=False, long_eom=False, two_sources=0.15, plain_date_end=False, stale=False):
     n = n_assets or rng.randint(1, 5)
     syms = SYMS[:n]
     assets = ['EQ:' + s for s in syms]
@@ -840,6 +840,8 @@ def gen_cfg(rng, alpha_kinds=('fixed',), universe_kinds=('static',), max_days=25
                 mk['first'] = d0.isoformat()          # data begin on the very first session day
         else:
             mk['nan_from_row'] = 3
+    if stale and rng.random() < 0.4:
+        mk['stale_p'] = rng.choice([0.1, 0.3])
     cfg['market'] = mk
     cfg['loud'] = rng.random() < 0.2          # the library's event printing left at its default (on)
     cfg['default_handler'] = rng.random() < 0.35      # no data handler passed: the session builds its own from the environment
@@ -952,6 +954,8 @@ def gen_cfg(rng, alpha_kinds=('fixed',), universe_kinds=('static',), max_days=25
             m2.pop(k_, None)
         m2['first'] = first.isoformat()
         m2['missing_p'] = 0.0
+        if rng.random() < 0.5:
+            m2['last'] = (d1 + dt.timedelta(days=rng.choice([4, 10, 40]))).isoformat()     # this vendor's files reach further
         m2['ratio'] = {s_: rng.choice([1.0, 0.5]) for s_ in m2['assets']}
         s_late = rng.choice(m2['assets'])
         if s_late not in mk.get('late', {}):
